@@ -170,6 +170,25 @@ def directed_lost_stop(r):
     return scenario(r, calm=True)
 
 
+def directed_quick_restart(r):
+    """Infinite TTLs, no Subscribe refresh, a collection window > 0: the offerer is stopped gracefully and started again
+    within the window (initial delay 0), so its StopOffer and its new Offer travel in ONE datagram - which is all the
+    watcher ever learns about the restart."""
+    sc = scenario(r, forever=True, calm=True)
+    na, nb, events, decisions, fault_end, latency, t_end, rev, fuel = sc
+    ca, cb = list(na[1]), list(nb[1])
+    ca[0] = ca[1] = 0                    # initial delay 0
+    ca[11] = 5 * MS                      # collection window of the offerer
+    cb[10] = None                        # the watcher never refreshes its Subscribe
+    na = (na[0], tuple(ca), na[2], [0] * 8, na[4])
+    nb = (nb[0], tuple(cb), nb[2], nb[3], nb[4])
+    inst = phase_instants(ca, 0)
+    t1 = inst[-1] + r.choice([T // 8, T // 2]) + r.choice([0, 3])
+    gap = r.choice([1, MS, 3 * MS, 5 * MS - 1, 5 * MS, 6 * MS, 20 * MS])
+    evs = sorted(list(events) + [(t1, False, (0, [1])), (t1 + gap, False, (0, [0]))], key=lambda e: e[0])
+    return (na, nb, evs, [], 0, latency, t1 + gap + 8 * T, rev, fuel)
+
+
 def describe(sc):
     na, nb, events, decisions, fault_end, latency, t_end, rev, fuel = sc
     def node(n):
@@ -284,7 +303,7 @@ def run(ctx):
     n = 150 if quick else 6000
     scs = [undescribe(c["scenario"]) for c in load_corpus("C04") if "scenario" in c]
     for k in range(n):
-        scs.append(directed_restart(r) if k % 4 == 3 else directed_lost_stop(r) if k % 10 == 6 else scenario(r, forever=(k % 5 == 4), calm=(k % 25 == 0)))
+        scs.append(directed_restart(r) if k % 4 == 3 else directed_lost_stop(r) if k % 10 == 6 else directed_quick_restart(r) if k % 10 == 2 else scenario(r, forever=(k % 5 == 4), calm=(k % 25 == 0)))
     judge(ctx, scs)
 
 
